@@ -112,6 +112,18 @@ pub const LADDERS: &[(&str, &str, &str, &str)] = &[
     ("fn f() { ", "todo as ", "", "\"x\" }"),
     ("fn f() { let ", "a as ", "", "b = 1 }"),
     ("fn f() { ", "..", "", "a }"),
+    ("fn f() { case x { ", "-", "", "1 -> 1 } }"),
+    ("fn f() { case x { ", "!", "", "a -> 1 } }"),
+    ("fn f() { case x { ", "\"a\" <> ", "", "r -> 1 } }"),
+    ("fn f() { let ", "-", "", "1 = x }"),
+    ("fn f() { let ", "#(", ")", " = x }"),
+    ("fn f() { use ", "[", "]", " <- g() }"),
+    ("type T { A(", "List(", ")", ") }"),
+    ("type T = ", "fn(", ") -> Int", ""),
+    ("const c: ", "#(", ")", " = 1"),
+    ("const c = ", "[", "]", ""),
+    ("fn f() { a(b: ", "a(b: ", ")", ") }"),
+    ("fn f() { case x { A(b: ", "A(b: ", ")", ") -> 1 } }"),
 ];
 
 fn ladder(i: usize, n: usize, m: usize) -> String {
@@ -133,7 +145,7 @@ impl Property for C02 {
         "C02"
     }
     fn rule(&self) -> String {
-        "cases: C01's exhaustive token-class enumeration (no depth cap); every prefix (char boundary) of corpus files and of damaged corpus files; nesting ladders opener^n closer^m for 20 recursive constructs, n in powers of two up to 2^14 (quick) / 2^17 (thorough) with m in {0,n/2,n}, and random mixed opener stacks; keyword/punctuation soup up to 2000 tokens; random text. Oracle: parse returns (tree, errors) without panic (the parser's own `parser is stuck` guard and assert! preconditions included), without killing the process (run on a 2 MiB-stack thread for the deep cases; a SIGSEGV/SIGABRT of the worker is confirmed by re-running the marked case alone), without exceeding the watchdog (confirmed alone with a 10x limit); the C01 losslessness oracle is applied to every result. Non-trivial = malformed (>=1 syntax error) or nesting >= 8; distinct by hash of the text.".into()
+        "cases: C01's exhaustive token-class enumeration (no depth cap); every prefix (char boundary) of corpus files and of damaged corpus files; nesting ladders opener^n closer^m for 32 recursive constructs, n in powers of two up to 2^14 (quick) / 2^17 (thorough) with m in {0,n/2,n}, and random mixed opener stacks; keyword/punctuation soup up to 2000 tokens; random text. Oracle: parse returns (tree, errors) without panic (the parser's own `parser is stuck` guard and assert! preconditions included), without killing the process (run on a 2 MiB-stack thread for the deep cases; a SIGSEGV/SIGABRT of the worker is confirmed by re-running the marked case alone), without exceeding the watchdog (confirmed alone with a 10x limit); the C01 losslessness oracle is applied to every result. Non-trivial = malformed (>=1 syntax error) or nesting >= 8; distinct by hash of the text.".into()
     }
     fn assumptions(&self) -> Vec<String> {
         vec![
